@@ -24,6 +24,8 @@ PLANS = {
     "34-58": ([(0, 3, 4), (72, 5, 8)], [(72, KEYS[9])]),
     "44-34k": ([(0, 4, 4), (96, 3, 4)], [(0, KEYS[2]), (96, KEYS[12])]),
     "316-78": ([(0, 3, 16), (36, 7, 8)], [(36, KEYS[6])]),
+    "44-keys": ([(0, 4, 4)], [(0, KEYS[0]), (96, KEYS[1]), (192, KEYS[2])]),
+    "keys-late": ([(0, 3, 4), (144, 4, 4)], [(72, KEYS[5])]),
 }
 
 
@@ -46,7 +48,7 @@ def grid(plan, nbars):
     return out
 
 
-def build_track(ctx, prefix, nnotes, ch, plan=None, smax=160, dmax=120, allowed=False, tail=True, multich=False):
+def build_track(ctx, prefix, nnotes, ch, plan=None, smax=160, dmax=120, allowed=False, tail=True, multich=False, same_pitch=False):
     """absolute messages of one track: symbolic notes (+ the plan's signature / key events for the meta track)"""
     msgs, notes = [], []
     if plan is not None:
@@ -63,18 +65,21 @@ def build_track(ctx, prefix, nnotes, ch, plan=None, smax=160, dmax=120, allowed=
             du = vals[di]
         else:
             du = ctx.int(f"{prefix}d{i}", 1, dmax)
-        p = 60 + i
+        p = 60 if same_pitch else 60 + i
         v = ctx.int(f"{prefix}v{i}", 1, 127)
         c = ctx.int(f"{prefix}c{i}", 0, 1) if multich else ch
         notes.append(NoteV(c, p, st, st + du, v))
         msgs.append(on(c, p, v, time=st))
         msgs.append(off(c, p, time=st + du))
+    if same_pitch:
+        ctx.assume(distinct_keys_or_disjoint(ctx, notes))
     return msgs, notes
 
 
-def q_bars(name, plan, n0, n1, requant, smax, dmax, multich=False):
+def q_bars(name, plan, n0, n1, requant, smax, dmax, multich=False, same_pitch=False):
     def fn(ctx):
-        m0, notes0 = build_track(ctx, "a", n0, 0, plan=plan, smax=smax, dmax=dmax, allowed=requant, multich=multich)
+        m0, notes0 = build_track(ctx, "a", n0, 0, plan=plan, smax=smax, dmax=dmax, allowed=requant, multich=multich,
+                                 same_pitch=same_pitch)
         tracks = [abs_sequence(m0)]
         all_notes = [notes0]
         if n1 is not None:
@@ -174,6 +179,7 @@ def queries(tier, seed):
     qs.append(q_bars("t1n2", "34-58", 2, None, False, 100, 90))
     qs.append(q_bars("t1n2mc", "34", 2, None, False, 80, 80, multich=True))     # one track carrying two channels
     qs.append(q_bars("t2empty", "34", 1, "empty", False, 100, 100))
+    qs.append(q_bars("t1n2samepitch", "none", 2, None, True, 60, 0, same_pitch=True))
     qs.append(q_bars("t2long", "68-24", 1, "long", False, 60, 60))
     qs.append(q_bars("t2n1", "44-34k", 1, 1, True, 40 if tier == "quick" else 100, 0))
     if tier == "thorough":
